@@ -353,6 +353,18 @@ def exec_run(tier, seed, d):
         q = l.split(' ')
         if len(q) == 3:
             model[(q[0], q[1])] = q[2]
+    # what Sem/Request.v auth_plan_of says a from_env client adds to every request
+    with open(f'{cd}/acases.txt', 'w') as f:
+        for cid in sorted({dr['crate'] for dr in drivers}):
+            if cid in cases:
+                f.write(f"{cid} {cases[cid]}\n")
+    rc, aout, _ = sh(f'{DRIVER} auth < {cd}/acases.txt', timeout=1800)
+    amodel = {}
+    for l in aout.split('\n'):
+        q = l.split(' ', 1)
+        if len(q) == 2:
+            amodel[q[0]] = q[1]
+    stats['auth_compared'] = 0; stats['auth_agrees'] = 0
     for dr in drivers:
         cid = dr['crate']
         exe = f"{tgt}/debug/examples/{dr['name']}"
@@ -395,6 +407,34 @@ def exec_run(tier, seed, d):
                     findings.append((cid, 'C14', '', f'{what}: credential of scheme {cr["scheme"]} expected as {want}, the request carries {creds}', spec))
         elif ex.get('auth') in ('none', 'anonymous') and creds:
             findings.append((cid, 'C14', '', f'{what}: no credential is declared but the request carries {creds}', spec))
+        # the same credentials, as the Coq model of from_env + authenticate predicts them
+        am = amodel.get(cid, '')
+        if am.startswith('ok:'):
+            kind = am[3:].split('|')[0]
+            want_set = None
+            if kind in ('none', 'anonymous'):
+                want_set = set()
+            elif kind == 'fields':
+                want_set = set()
+                for item in am[3:].split('|', 1)[1].split(';'):
+                    if not item:
+                        continue
+                    pl, cr = item.split('=', 1)
+                    pname, _, key = pl.partition(':')
+                    ckind, _, envn = cr.partition(':')
+                    val = 'val_' + envn
+                    if ckind == 'base64':
+                        val = base64.b64encode(val.encode()).decode().rstrip('=')
+                    want_set.add((pname, bytes.fromhex(key).decode() if key else '', val))
+            elif kind == 'oauth2':
+                want_set = {('middleware', '', 'oauth2:val_' + am[3:].split('|')[1])}
+            if want_set is not None:
+                stats['auth_compared'] += 1
+                if set(creds) == want_set:
+                    stats['auth_agrees'] += 1
+                elif len(disagreements) < 20:
+                    disagreements.append({'case': cid, 'driver': dr['name'], 'what': 'credentials on the executed request differ from Sem/Request.v auth_plan_of',
+                                          'executed': sorted(creds), 'model': sorted(want_set), 'spec': spec})
         if dr['kind'] == 'call':
             m = model.get((cid, dr['name']))
             if m is None or not m.startswith('ok:'):
